@@ -196,6 +196,21 @@ TRUSTED = ["assumed contracts of the OS boundary: os.walk, open/read/write/close
 TECH = {'C01': 'contracts + z3 VCs on the real source: section consumption posts, dispatch post, parsePEL loop invariant over recursively defined section list; buildOutput by two loop invariants over an array-modelled map + lemmas (z3 induction, cvc5 strings) and exhaustive enumeration', 'C02': 'contracts + z3 VCs: one postcondition per displayed field against byte-exact spec functions; sharded over flag words / target counts', 'C03': 'contracts + z3 VCs: sub-structure posts with read footprint, getCallouts by three loop invariants, SRC.toJSON posts with sample registries', 'C04': 'contracts + z3 VCs with the parser module havocked (returns/None/null/raises); hex-dump preservation via the C13 contract', 'C05': 'contracts + z3 VCs in both assert modes (assert statements removed for -O): bounds posts, exceptional postconditions, parsePEL-any-input invariant', 'C06': 'AST-extracted rewrite rule + regex->DFA product/emptiness (position lemma for lines of any length) + call-site check + mode loop invariants for the framing', 'C07': "contracts + z3 VCs: decision procedure equals the statement's selection formula over all severities, flags, switches and group sets", 'C08': 'contracts + z3 VCs: getFileList and the three modes by per-file loop invariants over one shared selection predicate (directories of any size)', 'C09': 'contracts + z3 VCs: stdout/stderr/fs ghost traces; per-file loop invariants: undecodable files contribute nothing (directories of any size)', 'C10': 'contracts + z3 VCs: id normalisation, PLID string lemma for all 2^32 ids (base-16 lemmas), look-up loops by (quantified) invariants', 'C11': 'contracts + z3 VCs: frame conditions on the ghost fs trace; deletion loops by invariants; main dispatch over all option combinations', 'C12': 'contracts + z3 VCs: every I/O primitive forks into success/OSError (all fault sequences); remove only after write_ok and close_ok', 'C13': 'contracts + z3 VCs: hexdump loop invariant, per-line parse lemmas on concrete-shape strings for 3 templates, syntactic independence lemma; layout enumeration', 'C14': 'contracts + z3 VCs: wildcard match on symbolic patterns, first-match search (quantified invariant), entry loop invariant', 'C15': 'contracts + z3 VCs: entry framing posts, buffer/format/parse loop invariants over recursively defined positions and line lists', 'C16': 'contracts + z3 VCs: field loop invariant over an arbitrary symbolic field table', 'C17': 'contracts + z3 VCs: partition/order/slice posts over the six header finds; auto-detection post; cross-template lemma', 'C18': 'contracts + z3 VCs over imports/plugin_calls traces with parser modules havocked; plugins-disabled frames', 'C19': 'contracts + z3 VCs: cache invariants preserved by every operation (all histories by induction); frame obligations on shared mutable state', 'C20': 'contracts + z3 VCs: field-exact slicing posts (both assert modes), signature-list invariant, register dump by nested invariants over all data sizes'}
 
 
+_DS = ("The value half of the DataStream contracts this property's decoders lean on (an in-range read returns exactly those bytes / "
+       "that big-endian integer and advances the cursor by n, for the widths read here) is re-proved under this property; how "
+       "out-of-range reads are refused belongs to C05.")
+DEPS_NOTE = {
+    'C01': _DS + " The default-layout hexdump shown for hexdump-only sections is re-proved here as well.",
+    'C02': _DS, 'C03': _DS + " getDisplayCompID ('Created by') is re-proved here.",
+    'C04': _DS + " hexdump (the preserved dump), getDisplayCompID and the column-alignment lemma of the printer are re-proved here.",
+    'C14': _DS, 'C15': _DS + " The hexdump shown for an unparseable buffer is re-proved here.",
+    'C16': _DS + " The full hexdump is re-proved here.", 'C18': _DS, 'C20': _DS,
+    'C10': "considerPEL's look-up exemption (hidden / non-serviceable PELs are found without extra options) is re-proved here.",
+    'C11': "processId (a wrong-length id never reaches the name match) is re-proved here.",
+    'C09': "The top-level-only walks (getFileList, main --json) are re-proved here.",
+}
+
+
 def apply(PROPS):
     import json, os
     exp = {}
@@ -208,7 +223,7 @@ def apply(PROPS):
         p = PROPS[pid]
         p['level'] = m['level']
         p['level_text'] = m['text']
-        p['level_note'] = m['note']
+        p['level_note'] = m['note'] + (" " + DEPS_NOTE[pid] if pid in DEPS_NOTE else "")
         p['explanation'] = m.get('explanation') or m['text']
         p['assumptions'] = COMMON_ASSUMPTIONS + m.get('assumptions', [])
         p['technique'] = TECH.get(pid, '')
